@@ -32,6 +32,31 @@ structure JAns where
   rootDep : Bool
   deriving FromJson
 
+/-- One node of the unpruned CDG as `_create_covered_cdg` / `visit_node` see it (answers of the real `AstInfo`). -/
+structure JBlock where
+  node : Nat
+  isBlock : Bool
+  elems : List Bool                      -- per element of the basic block: a real `Instr`?
+  last : Nat                             -- 0 no last instruction, 1 lineno not an int, 2 conditional excluded, 3 covered
+  lines : List Nat                       -- per original instruction: 0 lineno not an int, 1 line excluded, 2 covered
+  deriving FromJson
+
+def JBlock.info (b : JBlock) : Option BlockInfo :=
+  let last : Option (Option (Option Bool)) := match b.last with
+    | 0 => some none
+    | 1 => some (some none)
+    | 2 => some (some (some false))
+    | 3 => some (some (some true))
+    | _ => none
+  let lines : Option (List (Option Bool)) := b.lines.mapM (fun l => match l with
+    | 0 => some none
+    | 1 => some (some false)
+    | 2 => some (some true)
+    | _ => none)
+  match last, lines with
+  | some la, some li => some ⟨b.node, b.isBlock, b.elems, la, li⟩
+  | _, _ => none
+
 structure JCo where
   co : Nat
   nodes : List Nat                       -- `cdg.graph.nodes`, in order
@@ -41,6 +66,8 @@ structure JCo where
   full : Option (List JE)                -- CDG before `_create_covered_cdg` removed nodes
   removed : List Nat                     -- removed nodes, in removal order
   ans : List JAns                        -- what the real CDG answered for the predicate nodes
+  hasAst : Option Bool := none           -- `ast_info is not None` in `_create_covered_cdg`
+  binfo : Option (List JBlock) := none   -- nodes of the unpruned CDG in `tuple(cdg.graph)` order
   deriving FromJson
 
 def JCo.g (jc : JCo) : List (Nat × Nat × Option Bool) := es jc.ge
@@ -123,6 +150,24 @@ def sortEdges (l : List (Nat × Nat × Option Bool)) : List (Nat × Nat × Optio
   let key (x : Nat × Nat × Option Bool) : Nat := x.1 * 1000003 + x.2.1
   (l.toArray.qsort (fun a b => key a < key b || (key a == key b && toString a.2.2 < toString b.2.2))).toList
 
+/-- The model's `_create_covered_cdg` on the exported unpruned CDG: removed nodes, covered CDG, `checkPrune`,
+and whether every registered predicate sits on a node that passed `visit_node`'s gate. -/
+def pruneJ (preds : List Pred) (jc : JCo) : Json :=
+  match jc.full, jc.hasAst, jc.binfo with
+  | some f, some ha, some jb =>
+    match jb.mapM JBlock.info with
+    | none => Json.mkObj [("bad-op", "binfo")]
+    | some bs =>
+      let isBlock : Nat → Bool := fun n => bs.any (fun b => b.node == n && b.isBlock)
+      Json.mkObj [
+        ("removed", toJson (removedNodes ha bs)),
+        ("prune", toJson (checkPrune preds jc.co ha isBlock jc.root bs (es f))),
+        ("regGate", toJson (preds.all (fun p => p.co != jc.co ||
+            bs.any (fun b => b.node == p.node && visitGate ha b)))),
+        ("covered", Json.arr ((sortEdges (coveredCdg ha bs (es f))).map
+            (fun e => Json.arr #[toJson e.1, toJson e.2.1, toJson e.2.2])).toArray)]
+  | _, _, _ => Json.null
+
 def runCase (c : Case) : Json :=
   match c.goals.mapM toGoal with
   | none => Json.mkObj [("bad-op", "goal")]
@@ -167,6 +212,7 @@ def runCase (c : Case) : Json :=
         | some f => Json.arr ((sortEdges (removeNodes (es f) jc.removed)).map
             (fun e => Json.arr #[toJson e.1, toJson e.2.1, toJson e.2.2])).toArray
         | none => Json.null)).toArray),
+      ("prune", Json.arr (c.cos.map (pruneJ preds)).toArray),
       ("trace", trace)
     ]
 
